@@ -448,7 +448,8 @@ class Engine:
         while any(o.name == name for o in self.obls):
             k += 1
             name = '%s~%d' % (base, k)
-        self.obls.append(Ob(name, kind, fr.qual, tags, list(st.pc), goal, line, 'unsat', meta))
+        # definitional facts of the domain about fresh symbols (unconditionally true, kept out of the path condition so that state merging does not fold them into branch conditions)
+        self.obls.append(Ob(name, kind, fr.qual, tags, list(getattr(self.dom, 'global_facts', ())) + list(st.pc), goal, line, 'unsat', meta))
 
     def lexically_under(self, fr, line, snippets):
         """is the statement at `line` inside an `if` (or `elif`) whose test mentions one of the snippets?"""
@@ -489,7 +490,7 @@ class Engine:
         while any(o.name == name for o in self.obls):
             k += 1
             name = '%s~%d' % (base, k)
-        self.obls.append(Ob(name, 'cover', fr.qual, tags, list(st.pc), z3.BoolVal(True), line, 'sat'))
+        self.obls.append(Ob(name, 'cover', fr.qual, tags, list(getattr(self.dom, 'global_facts', ())) + list(st.pc), z3.BoolVal(True), line, 'sat'))
 
     def unsup(self, node, what):
         self.unsupported.append((self.frames[-1].qual if self.frames else '?', getattr(node, 'lineno', 0), what))
@@ -689,6 +690,7 @@ class Engine:
         saved = self.frames[-1].old if self.frames else None
         if self.frames:
             self.frames[-1].old = old
+        orig = st
         if extra:
             st = st.copy()
             st.env.update(extra)
@@ -697,6 +699,9 @@ class Engine:
             return self.ev(c.node, st)
         finally:
             self.in_spec -= 1
+            if st is not orig:
+                # facts learnt while evaluating the clause (library facts of the domain about the terms of the clause) belong to the state the clause is obliged in
+                orig.pc += st.pc[len(orig.pc):]
             if self.frames:
                 self.frames[-1].old = saved
 
